@@ -555,6 +555,9 @@ package tree
 //@ func (*RootEntry).GetUpdatesForOwner
 //@   trusted walk over a tree built by the tree constructors; result not specified
 
+//@ func (*sharedEntryAttributes).AddCacheUpdateRecursive
+//@   trusted recursive insertion into a tree built by the tree constructors; result not specified
+
 //@ func (*sharedEntryAttributes).getRegularDeletes
 //@   props C01
 //@   requires s != nil && s.childs != nil && s.cacheMutex != nil && s.leafVariants != nil && lvOK(s.leafVariants)
